@@ -60,6 +60,16 @@ mutant("c16-python-default-encoding", "C16", r"python:final-run-failed:UnicodeEn
        [("generator/plugins/python/utils.py", "        (output_path / file_name).write_text(code[file_name], encoding=\"utf-8\")", "        (output_path / file_name).write_text(code[file_name])")],
        ["--plugin", "python", "--runs", "160"])
 
+mutant("c16-rust-header-with-date", "C16", r"rust:output-differs",
+       [("generator/plugins/rust/rust_utils.py", "        \"// ****** THIS IS A GENERATED FILE, DO NOT EDIT. ******\",\n",
+         "        \"// ****** THIS IS A GENERATED FILE, DO NOT EDIT. ******\",\n        \"// Generated on \" + __import__(\"datetime\").date.today().isoformat(),\n")],
+       ["--plugin", "rust", "--runs", "100"])
+mutant("c16-python-header-with-model-path", "C16", r"python:output-differs",
+       [("generator/__main__.py", "    spec: model.LSPModel = model.create_lsp_model(json_models)\n",
+         "    spec: model.LSPModel = model.create_lsp_model(json_models)\n    spec.metaData.version += \" (\" + \", \".join(os.fspath(m) for m in model_files) + \")\"\n"),
+        ("generator/plugins/python/utils.py", "    code = TypesCodeGenerator(spec).get_code()\n", "    code = TypesCodeGenerator(spec).get_code()\n    code = {k: v + f\"\\n# model: {spec.metaData.version}\\n\" for k, v in code.items()}\n")],
+       ["--plugin", "python", "--runs", "60"])
+
 # ---- C05 ------------------------------------------------------------------------------------------
 mutant("c05-hand-edit-types-py", "C05", r"python:statement-differs",
        [("packages/python/lsprotocol/types.py", "class Position:\n", "class Position:\n    _hand_edited = True\n")])
